@@ -288,7 +288,9 @@ func C20(c *core.Ctx) {
 	c.Add("distinct_nontrivial", n)
 	c.Sample(map[string]any{"journal": cases[0]["text"], "argv": cases[0]["wargs"], "weights": cases[0]["weights"], "returns": cases[0]["returns"]})
 	c.JudgeAndReport("Trace_Portfolio", "Trace_Portfolio.cfg", cases, 16,
-		func(old map[string]any) map[string]any { return observePortfolio(bin, root, old["id"].(int), jobs[old["id"].(int)-1]) },
+		func(old map[string]any) map[string]any {
+			return observePortfolio(bin, root, old["id"].(int), jobs[old["id"].(int)-1])
+		},
 		func(cs map[string]any) (string, string) {
 			sig := "portfolio:" + fmt.Sprint(cs["why"])
 			if cs["why"] == "a-period-has-no-return-line" {
